@@ -2,7 +2,10 @@
 package rules
 
 import (
+	"runtime/debug"
 	"sort"
+
+	"golang.org/x/tools/go/ssa"
 
 	"waspcheck/internal/core"
 	"waspcheck/internal/report"
@@ -43,4 +46,22 @@ func IDs() []string {
 	}
 	sort.Strings(out)
 	return out
+}
+
+// Forget drops everything cached for a program (used by the self-test, which analyses many variants in one process).
+func Forget(p *core.Prog) {
+	delete(laCache, p)
+	delete(clockCache, p)
+	mutMemo = map[*ssa.Function]int{}
+	lockWrappers = map[*ssa.Function]map[string]string{}
+	lockReleasers = map[*ssa.Function]map[string]bool{}
+	upsertBodyCache = map[*dstate]map[*ssa.Function]bool{}
+	stampCache = map[*dstate]*stampFns{}
+	modOnly = nil
+	core.Forget(p)
+	if theProg == p {
+		theProg = nil
+	}
+	theClock = nil
+	debug.FreeOSMemory()
 }
